@@ -2393,6 +2393,12 @@ func (ctx Ctx) funcDecl(d *ast.FuncDecl) coq.FuncDecl {
 	}
 
 	fd.Args = append(fd.Args, ctx.paramList(d.Type.Params)...)
+	for _, a := range fd.Args {
+		if a.Name == fd.Name {
+			// the parameter would hide the rec binder of the same name
+			ctx.unsupported(d, "parameter %s has the name of the definition", a.Name)
+		}
+	}
 	fd.ReturnType = ctx.returnType(d.Type.Results)
 	if obj, ok := ctx.info.Defs[d.Name].(*types.Func); ok {
 		ctx.checkInterfaceConversions(d.Body, obj.Type().(*types.Signature))
